@@ -23,7 +23,7 @@ CHECKS["C08"] = dict(
     test="TestC08", level="exploration", exhaustive_part=True,
     exhaustive_part_text="every cancellation index k in 0..n+1 for every cancellable operation on chain and wide DAGs of the listed small sizes; early-exit kinds and stream x writer scenarios are fixed representatives plus random draws",
     quick=dict(shards=8, checks=40, timeout=600),
-    thorough=dict(shards=16, checks=120, timeout=3000),
+    thorough=dict(shards=12, checks=60, timeout=2400, env={"GOMEMLIMIT": "3GiB", "VERIF_MAX_WORLDS": 90}),
     assumptions=["goroutine-profile text format of the Go runtime (state names, frame names)", "one node per case; inter-node wedges are out of scope"],
 )
 
@@ -37,7 +37,9 @@ for _p, _q, _t in [("C01", 45, 140), ("C02", 45, 120), ("C03", 45, 140), ("C06",
         test="Test" + _p, level="exploration",
         common=dict(shrinktime="5s", env={"GOMEMLIMIT": "3GiB"}),
         quick=dict(shards=12, checks=_q, timeout=900, env={"VERIF_TRUNC_EVERY": 15, "GOMEMLIMIT": "3GiB"}),
-        thorough=dict(shards=16, checks=_t, timeout=3000, env={"VERIF_TRUNC_EVERY": 6, "GOMEMLIMIT": "3GiB"}),
+        # memory: a world retains ~15 MB per node after it is closed, so a process is kept to _t//2 worlds and the
+        # tier gets its depth from more waves of 12 processes (16 processes of 140 worlds were killed by the OOM killer)
+        thorough=dict(shards=12, checks=_t // 2, timeout=2400, env={"VERIF_TRUNC_EVERY": 6, "GOMEMLIMIT": "3GiB", "VERIF_MAX_WORLDS": 90}),
         assumptions=_LEDGER_ASSUME,
     )
 
@@ -61,7 +63,7 @@ CHECKS["C13"] = dict(
     exhaustive_part_text="all delivery permutations of three fixed segment shapes (chain, diamond, two-depth parents) of 4 (quick) / 5 (thorough) vertices",
     common=dict(shrinktime="20s", env={"GOMEMLIMIT": "3GiB"}),
     quick=dict(shards=8, checks=50, timeout=900),
-    thorough=dict(shards=16, checks=140, timeout=3000),
+    thorough=dict(shards=12, checks=70, timeout=2400, env={"VERIF_MAX_WORLDS": 90}),
     assumptions=["retry steps go through the synchronous hook that pops the next parked vertex and calls the real admission path; the real 2 s ticker keeps running and may add a legal extra retry",
                  "schedules stay inside the promised bounds (<=24 retries per vertex, far fewer than 500 parked)"],
 )
@@ -70,8 +72,8 @@ CHECKS["C07"] = dict(
     test="TestC07", level="exploration",
     common=dict(shrinktime="1s", env={"GOMEMLIMIT": "3GiB"}),
     quick=dict(shards=14, checks=5, timeout=1200),
-    thorough=dict(shards=16, checks=60, timeout=3400),
-    assumptions=_LEDGER_ASSUME + ["truncation is triggered through the hook calling the real truncate synchronously; truncation racing with proposals is sampled by C18's workload only"],
+    thorough=dict(shards=12, checks=40, timeout=3000),
+    assumptions=_LEDGER_ASSUME + ["truncation is triggered through the hook calling the real truncate synchronously; truncation racing with proposals and balance reads is sampled by one race scenario per process"],
 )
 
 CHECKS["C04"] = dict(
@@ -88,7 +90,7 @@ CHECKS["C14"] = dict(
     test="TestC14", level="exploration",
     common=dict(shrinktime="5s", env={"GOMEMLIMIT": "3GiB"}),
     quick=dict(shards=12, checks=32, timeout=900),
-    thorough=dict(shards=16, checks=130, timeout=3000),
+    thorough=dict(shards=12, checks=80, timeout=2400, env={"VERIF_MAX_WORLDS": 90}),
     assumptions=_LEDGER_ASSUME + ["a well-formed/malformed verdict on a corrupted stream is recomputed by the harness from the statement's list; a parent-closed prefix of a stream is a smaller well-formed ledger"],
 )
 
@@ -147,5 +149,5 @@ CHECKS["C19"]["thorough"]["fuzz"] = dict(target="FuzzC19", seconds=120)
 CHECKS["C20"]["thorough"]["fuzz"] = dict(target="FuzzC20", seconds=120)
 
 # depth of the thorough tier for the world-based checks comes from waves of processes (a process is capped at 150 worlds)
-for _p, _r in [("C01", 3), ("C02", 3), ("C03", 3), ("C06", 3), ("C09", 3), ("C10", 3), ("C07", 2), ("C13", 3), ("C14", 2), ("C16", 4), ("C08", 4)]:
+for _p, _r in [("C01", 6), ("C02", 6), ("C03", 6), ("C06", 6), ("C09", 6), ("C10", 6), ("C07", 3), ("C13", 6), ("C14", 3), ("C16", 4), ("C08", 6)]:
     CHECKS[_p]["thorough"]["rounds"] = _r
